@@ -1,7 +1,7 @@
 ID = "C04"
 PROPS_FILE = "props/C04.v"
 COQ_TARGETS = ["props/C04.vo", "judge/J04.vo", "model/Pack.vo"]
-JUDGE = ("judge.J04", "J04.judge")
+JUDGE = ("judge.J04 judge.CoreJudge model.Core", "J04.judge")
 JUDGE_SCOPE = "Z_scope"
 REPO_BINS = []
 RULE = ("numdrive: every 'way of writing the number' (boundary set per configuration: 0, config maxima +-2, 9223372036854+-2 = ms->ns overflow, "
@@ -66,5 +66,9 @@ def drivers():
                     "-exh-len", "3", "-exh-sample", "15", "-seed", str(seed)]
         return ["-n", str(1500 * scale), "-nfill", str(600 * scale), "-nchan", str(600 * scale), "-nbig", str(100 * scale), "-ntouch", str(300 * scale),
                 "-exh-len", "4", "-exh-sample", "100", "-seed", str(seed)]
+    def core_args(tier, seed, scale):
+        n = (24 if tier == "quick" else 400) * scale
+        return ["-profile", "c04", "-n", str(n), "-ops", "35", "-seed", str(seed), "-wrap", "J04.CoreTrace"]
     return [{"driver": "numdrive", "args": num_args, "replay_args": lambda tier: []},
-            {"driver": "pqdrive", "args": pq_args, "replay_args": lambda tier: []}]
+            {"driver": "pqdrive", "args": pq_args, "replay_args": lambda tier: []},
+            {"driver": "coredrive", "args": core_args, "replay_args": lambda tier: ["-wrap", "J04.CoreTrace"], "timeout": 1500}]
